@@ -1163,6 +1163,7 @@ def rolling_window(
     coordinates = check_coordinates(coordinates)[:2]
     if region is None:
         region = get_region(coordinates)
+    check_region(region)
     # Check if window size is bigger than the minimum dimension of the region
     region_min_width = min(region[1] - region[0], region[3] - region[2])
     if region_min_width < size:
